@@ -3,3 +3,4 @@ import KitModel.Locks.FifoMutex
 import KitModel.Locks.FifoMap
 import KitModel.Locks.CMap
 import KitModel.Locks.Context
+import KitModel.Locks.OuterCancel
